@@ -413,6 +413,92 @@ func (e *c17Env) runCase(cs c17Case, realServer *httptest.Server) {
 	}
 }
 
+// body types other than pointers: slices and maps, nil / empty / filled. "No body" means a nil POINTER only; a nil
+// slice or map is a value like any other and goes through the serializer (JSON: null).
+func (e *c17Env) collectionBodies() {
+	run := func(what string, want string, wantCalls int, mk func(api *network.SimpleAPIDef, ser func(interface{}) (io.Reader, error)) *fpgo.MonadIODef[*network.APIResponse[c17Target]]) {
+		e.c.Eval(1)
+		e.c.DistinctAdd(1)
+		stub := &c17Stub{}
+		api := network.NewSimpleAPIWithSimpleHTTP("http://example.test/api", network.NewSimpleHTTPWithClientAndInterceptors(&http.Client{Transport: stub}))
+		calls := 0
+		var seen []string
+		ser := func(body interface{}) (io.Reader, error) {
+			calls++
+			seen = append(seen, fmt.Sprintf("%#v", body))
+			b, err := json.Marshal(body)
+			return bytes.NewReader(b), err
+		}
+		pv, where := core.Catch(func() {
+			io1 := mk(api, ser)
+			for evalN := 1; evalN <= 2; evalN++ {
+				resp := io1.Eval()
+				reqs := stub.take()
+				if resp == nil || len(reqs) != 1 {
+					e.c.Violationf("collection-body:requests", map[string]any{"case": what}, "%s: Eval #%d issued %d requests", what, evalN, len(reqs))
+					return
+				}
+				if string(reqs[0].body) != want {
+					e.c.Violationf("collection-body:wrong", map[string]any{"case": what}, "%s: the request body is %q, the serializer's output for that value is %q (Eval #%d)", what, reqs[0].body, want, evalN)
+					return
+				}
+			}
+			if wantCalls >= 0 && calls != 2*wantCalls {
+				e.c.Violationf("collection-body:serializer-calls", map[string]any{"case": what}, "%s: the custom serializer was called %d times in 2 evaluations (saw %v), want %d", what, calls, seen, 2*wantCalls)
+			}
+		})
+		if pv != nil {
+			e.c.Violationf("collection-body:panic", map[string]any{"case": what}, "%s panics: %v at %s", what, pv, where)
+		}
+	}
+	var nilInts []int
+	var nilMap map[string]int
+	var nilStrs []string
+	type tc struct {
+		name string
+		v    interface{}
+	}
+	for _, t := range []tc{{"nil []int", nilInts}, {"empty []int", []int{}}, {"[]int{1,2}", []int{1, 2}}, {"nil map[string]int", nilMap}, {"empty map", map[string]int{}}, {"map{a:1}", map[string]int{"a": 1}}, {"nil []string", nilStrs}} {
+		t := t
+		wb, _ := json.Marshal(t.v)
+		want := string(wb)
+		target := &c17Target{}
+		switch v := t.v.(type) {
+		case []int:
+			run("APIMakePostJSONBody[[]int] with "+t.name, want, -1, func(api *network.SimpleAPIDef, _ func(interface{}) (io.Reader, error)) *fpgo.MonadIODef[*network.APIResponse[c17Target]] {
+				return network.APIMakePostJSONBody[[]int, c17Target](api, "c")(nil, v, target)
+			})
+			run("APIMakePutJSONBody[[]int] with "+t.name, want, -1, func(api *network.SimpleAPIDef, _ func(interface{}) (io.Reader, error)) *fpgo.MonadIODef[*network.APIResponse[c17Target]] {
+				return network.APIMakePutJSONBody[[]int, c17Target](api, "c")(nil, v, target)
+			})
+			run("APIMakeDoNewRequestWithBodySerializer[[]int] with "+t.name, want, 1, func(api *network.SimpleAPIDef, ser func(interface{}) (io.Reader, error)) *fpgo.MonadIODef[*network.APIResponse[c17Target]] {
+				return network.APIMakeDoNewRequestWithBodySerializer[[]int, c17Target](api, "POST", "c", "application/json", ser)(nil, v, target)
+			})
+		case map[string]int:
+			run("APIMakePatchJSONBody[map[string]int] with "+t.name, want, -1, func(api *network.SimpleAPIDef, _ func(interface{}) (io.Reader, error)) *fpgo.MonadIODef[*network.APIResponse[c17Target]] {
+				return network.APIMakePatchJSONBody[map[string]int, c17Target](api, "c")(nil, v, target)
+			})
+			run("APIMakeDoNewRequestWithBodySerializer[map[string]int] with "+t.name, want, 1, func(api *network.SimpleAPIDef, ser func(interface{}) (io.Reader, error)) *fpgo.MonadIODef[*network.APIResponse[c17Target]] {
+				return network.APIMakeDoNewRequestWithBodySerializer[map[string]int, c17Target](api, "PUT", "c", "application/json", ser)(nil, v, target)
+			})
+		case []string:
+			run("APIMakePostJSONBody[[]string] with "+t.name, want, -1, func(api *network.SimpleAPIDef, _ func(interface{}) (io.Reader, error)) *fpgo.MonadIODef[*network.APIResponse[c17Target]] {
+				return network.APIMakePostJSONBody[[]string, c17Target](api, "c")(nil, v, target)
+			})
+		}
+	}
+	// values (not pointers) of struct, string and int type as body
+	run("APIMakePostJSONBody[c17Body] with a zero struct value", `{"name":"","n":0}`, -1, func(api *network.SimpleAPIDef, _ func(interface{}) (io.Reader, error)) *fpgo.MonadIODef[*network.APIResponse[c17Target]] {
+		return network.APIMakePostJSONBody[c17Body, c17Target](api, "c")(nil, c17Body{}, &c17Target{})
+	})
+	run("APIMakePostJSONBody[string] with the empty string", `""`, -1, func(api *network.SimpleAPIDef, _ func(interface{}) (io.Reader, error)) *fpgo.MonadIODef[*network.APIResponse[c17Target]] {
+		return network.APIMakePostJSONBody[string, c17Target](api, "c")(nil, "", &c17Target{})
+	})
+	run("APIMakePostJSONBody[int] with 0", `0`, -1, func(api *network.SimpleAPIDef, _ func(interface{}) (io.Reader, error)) *fpgo.MonadIODef[*network.APIResponse[c17Target]] {
+		return network.APIMakePostJSONBody[int, c17Target](api, "c")(nil, 0, &c17Target{})
+	})
+}
+
 // response bodies far larger than any read buffer, through the real transport on loopback: the body must be decoded
 // into the target completely
 func (e *c17Env) largeBodies() {
@@ -581,6 +667,7 @@ func runC17(c *core.Ctx) {
 	}
 	c.Count("loopback_cases", int64(n))
 	e.largeBodies()
+	e.collectionBodies()
 	for i := 0; i < len(cases); i += len(cases)/5 + 1 {
 		c.Sample(cases[i].String())
 	}
@@ -593,7 +680,7 @@ func init() {
 			return core.Meta{
 				Level: "fault_enumeration",
 				Rule: "11 constructors x 8 relative templates (0..4 placeholders, repeated and adjacent) x 9 PathParam maps (nil, empty, missing, extra, 1..4 keys, spaces, unicode, slash, '?', unparsable escape) x 4 bodies x 3 DefaultHeader sets x 15 injected outcomes (none, serializer error, transport error, a first round trip failing with EOF / unexpected EOF / ECONNRESET / EPIPE / ECONNREFUSED / net.OpError / wrapped EOF / deadline while a second one would succeed, non-JSON body, unreadable body, deserializer (target,err), deserializer (nil,err)); thorough = full product, quick = full over constructor x template x params x fault with bodies/headers rotated. " +
-					"A stub RoundTripper under SimpleHTTP captures method, URL, header map (identity + content) and body; each case: nothing before Eval, exactly one request per Eval (x2), expected method/URL/headers/body, target decoded, failures surface as Err without panic; a subset also through the real transport against a loopback server, plus response bodies of 0 B .. 4 MiB through the real transport. distinct_nontrivial = enumerated cases (distinct by construction)",
+					"A stub RoundTripper under SimpleHTTP captures method, URL, header map (identity + content) and body; each case: nothing before Eval, exactly one request per Eval (x2), expected method/URL/headers/body, target decoded, failures surface as Err without panic; a subset also through the real transport against a loopback server, plus response bodies of 0 B .. 4 MiB through the real transport, plus body TYPES other than pointers (slices, maps: nil / empty / filled; zero struct, empty string, 0) with the JSON serializer's output as oracle and a counting custom serializer. distinct_nontrivial = enumerated cases (distinct by construction)",
 				Assumptions: []string{"expected URL = BaseURL + '/' + template with every supplied {key} replaced by fmt.Sprint(value); values contain no braces; if that string does not parse as a URL the evaluation must yield Err",
 					"expected headers = DefaultHeader values + the declared Content-Type appended; the stub sees the request before net/http's real transport adds its own headers"},
 				Exhaustive: c.Thorough(),
